@@ -26,6 +26,11 @@ CACHE = os.path.join(ROOT, ".cache")
 sys.path.insert(0, os.path.join(ROOT, "tools"))
 import props  # noqa: E402
 
+# The repository under check.  VERIF_REPO lets the integrator point the whole pipeline at a scratch
+# worktree (mutation testing) without touching /repo; registered commands always use /repo.
+REPO = os.environ.get("VERIF_REPO", "/repo")
+ALT = "" if REPO == "/repo" else "-" + re.sub(r"\W", "_", REPO)
+
 FORBIDDEN = [
     r"\bAdmitted\b", r"\badmit\b", r"\bAxiom\b", r"\bAxioms\b", r"\bParameter\b", r"\bParameters\b",
     r"\bConjecture\b", r"\bAdmit Obligations\b", r"Unset Guard", r"bypass_check", r"type-in-type",
@@ -177,12 +182,28 @@ def first_error(out):
     return (m.group(0) if m else out[-300:]).replace("\n", " ").strip()[:400]
 
 
-def cargo_build(cfg, log, release=False):
+def harness_dir():
     hdir = os.path.join(ROOT, "harness")
+    if not ALT:
+        return hdir
+    import shutil
+    alt = os.path.join(CACHE, "harness" + ALT)
+    if os.path.exists(alt):
+        shutil.rmtree(alt)
+    shutil.copytree(hdir, alt, ignore=shutil.ignore_patterns("target"))
+    t = open(os.path.join(alt, "Cargo.toml")).read().replace('"/repo', '"' + REPO)
+    open(os.path.join(alt, "Cargo.toml"), "w").write(t)
+    open(os.path.join(alt, ".cargo", "config.toml"), "w").write(
+        '[net]\noffline = true\n[build]\ntarget-dir = "%s"\n' % os.path.join(CACHE, "target" + ALT))
+    return alt
+
+
+def cargo_build(cfg, log, release=False):
+    hdir = harness_dir()
     lock = os.path.join(hdir, "Cargo.lock")
     if not os.path.exists(lock):
         import shutil
-        shutil.copy("/repo/Cargo.lock", lock)
+        shutil.copy(os.path.join(REPO, "Cargo.lock"), lock)
     cmd = ["cargo", "build", "--offline", "--bin", cfg["bin"]]
     if release:
         cmd.append("--release")
@@ -206,11 +227,12 @@ def run_cases(cfg, seed, ncases, tier, tag, log, only=None, release=False):
     """Generate + run implementation + evaluate in Coq.  Returns dict."""
     out_dir = os.path.join(CACHE, "run", cfg["id"] + "-" + tag)
     os.makedirs(out_dir, exist_ok=True)
-    binpath = os.path.join(CACHE, "target", "release" if release else "debug", cfg["bin"])
+    binpath = os.path.join(CACHE, "target" + ALT, "release" if release else "debug", cfg["bin"])
     cmd = [binpath, "--seed", str(seed), "--cases", str(ncases), "--out", out_dir, "--tier", tier]
+    env = {"VERIF_REPO": REPO}
     if only is not None:
         cmd += ["--only", str(only)]
-    rc, out = sh(cmd, timeout=cfg.get("harness_timeout", 1500))
+    rc, out = sh(cmd, timeout=cfg.get("harness_timeout", 1500), env=env)
     log.write("== harness %s\n%s\n" % (" ".join(cmd), out[-2000:]))
     if rc != 0:
         return dict(error="harness failed (rc=%s): %s" % (rc, out[-400:]))
@@ -312,7 +334,7 @@ def main():
     broken = ["forbidden construct: " + h for h in hits]
 
     # 2. translator
-    rc, out = sh([sys.executable, os.path.join(ROOT, "tools", "translate.py")])
+    rc, out = sh([sys.executable, os.path.join(ROOT, "tools", "translate.py"), "--repo", REPO])
     log.write("== translate\n" + out + "\n")
     translator = [l for l in out.strip().split("\n") if l]
     for l in translator:
